@@ -12,6 +12,7 @@ import (
 	"verif.local/h/ex"
 	"verif.local/h/gen"
 	"verif.local/h/gr"
+	"verif.local/h/spec"
 )
 
 // C11 — generation is deterministic.
@@ -75,15 +76,38 @@ func genC11(t *rapid.T) C11Case {
 	g := genAnyGrammar(t, true)
 	c := C11Case{G: g, Flags: genFlags(t, len(g.Prods) > 0)}
 	if rapid.IntRange(0, 3).Draw(t, "damaged") == 0 {
+		if rapid.Bool().Draw(t, "syntaxOnlyBase") {
+			// named tokens stay undefined: several diagnostics of different
+			// severity are produced in one run
+			g = gen.SynGrammar(gen.SynOpts{MaxNT: 6, MaxTerms: 8}).Draw(t, "damagedBase")
+			c.G = g
+		}
 		base := g.TokenList()
 		toks := make([]string, len(base))
 		for i, b := range base {
 			toks[i] = b.Text
 		}
 		var muts []string
-		n := rapid.IntRange(1, 3).Draw(t, "nDamage")
-		for k := 0; k < n; k++ {
+		// an undefined production more often than chance would give
+		if rapid.Bool().Draw(t, "undefinedProd") {
+			var refs []int
+			for i := range toks {
+				if spec.ClassOfText(toks[i]) == "prodId" && i+1 < len(toks) && toks[i+1] != ":" {
+					refs = append(refs, i)
+				}
+			}
+			if len(refs) > 0 {
+				i := rapid.SampledFrom(refs).Draw(t, "undefAt")
+				toks[i] = rapid.SampledFrom(undefinedProdNames).Draw(t, "undefName")
+				muts = append(muts, "undefined production")
+			}
+		}
+		n := rapid.IntRange(0, 2).Draw(t, "nDamage")
+		for k := 0; k < n || len(muts) == 0; k++ {
 			toks, muts = mutateGrammar(t, toks, muts)
+			if k > 6 {
+				break
+			}
 		}
 		c.Src = strings.Join(toks, " ") + "\n"
 	}
